@@ -2,9 +2,14 @@
 package checks
 
 import (
+	"bytes"
 	"fmt"
+	"github.com/diskfs/go-diskfs/filesystem"
+	"io"
+	"os"
 	"runtime"
 	"runtime/debug"
+	"sort"
 	"strings"
 	"sync"
 
@@ -155,4 +160,68 @@ func randomBytes(seed uint64, n int) []byte {
 		b[i] = byte(x >> 24)
 	}
 	return b
+}
+
+// interleavedRead opens up to eight of the files at once on ONE filesystem object and reads them in turns, chunk bytes at a
+// time, until each reports io.EOF; every handle must deliver its own file. Returns "" or a description of the first difference.
+func interleavedRead(fsys filesystem.FileSystem, files map[string][]byte, chunk int) string {
+	var names []string
+	for p, b := range files {
+		if len(b) > 0 {
+			names = append(names, p)
+		}
+	}
+	sort.Slice(names, func(i, j int) bool {
+		if len(files[names[i]]) != len(files[names[j]]) {
+			return len(files[names[i]]) > len(files[names[j]])
+		}
+		return names[i] < names[j]
+	})
+	if len(names) > 8 {
+		names = names[:8]
+	}
+	if len(names) < 2 {
+		return ""
+	}
+	hs := make([]filesystem.File, len(names))
+	got := make([][]byte, len(names))
+	done := make([]bool, len(names))
+	for i, p := range names {
+		f, err := fsys.OpenFile(p, os.O_RDONLY)
+		if err != nil {
+			return fmt.Sprintf("OpenFile(%s) with %d other handles open: %v", p, i, err)
+		}
+		hs[i] = f
+	}
+	buf := make([]byte, chunk)
+	for left, rounds := len(names), 0; left > 0; rounds++ {
+		if rounds > 1<<20 {
+			return "handles never reach the end of their files"
+		}
+		for i, f := range hs {
+			if done[i] {
+				continue
+			}
+			k, err := f.Read(buf)
+			got[i] = append(got[i], buf[:k]...)
+			if err == io.EOF || (k == 0 && err == nil && len(got[i]) >= len(files[names[i]])) {
+				done[i] = true
+				left--
+				continue
+			}
+			if err != nil {
+				return fmt.Sprintf("Read(%s) at %d while other handles are open: %v", names[i], len(got[i]), err)
+			}
+			if k == 0 || len(got[i]) > len(files[names[i]])+chunk {
+				return fmt.Sprintf("Read(%s) at %d of %d returned (%d, %v)", names[i], len(got[i]), len(files[names[i]]), k, err)
+			}
+		}
+	}
+	for i, p := range names {
+		_ = hs[i].Close()
+		if !bytes.Equal(got[i], files[p]) {
+			return fmt.Sprintf("file %s read through a handle that took turns with %d others: %d bytes, source %d, first difference at %d", p, len(names)-1, len(got[i]), len(files[p]), firstDiff(got[i], files[p]))
+		}
+	}
+	return ""
 }
